@@ -63,6 +63,11 @@ CHECKS["C14"] = dict(level="model_checking", engine="crashfs",
    text="Time-based pass (DoRetentionBasedDeletion with a 1 h retention) over every set of <=3 rotated log segments on two indexes whose newest event is 90 min old / 30 min old / straddling the horizon, combined with rotated metrics segments {old, fresh} in both creation orders and an open segment holding old events (all 5x3 combinations for 3 segments in thorough): after pass, second pass, process restart and a further pass, searches return exactly the events of surviving segments, expired log and metrics data are gone, segment directories, metrics block directories and segmeta.json list exactly the survivors (the model knows that a restart turns the open segment into a rotated one, which then expires). Crash part: two recorded passes are cut after every file-system operation (about 75 states); a new process must start, serve all survivors without errors, and a repeated pass must reach the same final state.",
    note="Ages are >=30 min from the horizon on either side, so the `<=` at the exact horizon millisecond is outside the bound (time.Now() is not owned). Volume- and inode-based passes depend on the real file system's usage and are not driven.",
    ref="DESIGN.md §4 C14")
+CHECKS["C13"] = dict(level="model_checking", engine="seqx",
+   technique="explicit-state breadth-first search over a tenant model (canonical-state deduplication); every reachable model state is reached on the real code by replaying its shortest operation path, and all query forms are evaluated in it",
+   text="Operations ingest(org in {0,1}, index in {a, ab, a-b}), add/remove alias (x, and ab which is also an index name), delete(org, index | a*), rotate; BFS to depth 3 (quick, 207 states) / 4 (thorough). In every state 9 index expressions (names that are prefixes of each other, wildcard, *, alias, lists, unknown) x both organisations x {search, stats count} must return no event of the other organisation, nothing outside the named indexes and everything inside them; deleting removes exactly that organisation's index.",
+   note="Multi-tenancy enters through the public seam (GetIdsConditionHook -> [0,1], org id argument of the processing functions). Whether a wildcard expands alias names and which reading wins when an alias shares its name with an index is left open (lower/upper bounds). Metrics tenancy and column listings are not yet in the query forms. Known: aliases of org != 0 never resolve.",
+   ref="DESIGN.md §4 C13")
 NOT_YET = {}
 props = [json.loads(l) for l in open("properties.jsonl")]
 m = {"version": 1, "setup_cmd": "./vcheck setup",
